@@ -18,6 +18,7 @@ let dec_of_n (x : n) : string = string_of_int (int_of_n x)
 
 let () =
   let snap = ref [] and st = ref xbuf_empty and target = ref "" and prev_wseq = ref N0 in
+  let pst = ref (pbuf_empty []) in
   let cps : (string, nat) Hashtbl.t = Hashtbl.create 16 in
   let n = ref 0 and mism = ref 0 and progs = ref 0 in
   let counts = Hashtbl.create 64 in
@@ -26,7 +27,7 @@ let () =
   read_lines (fun line ->
     match split_tab line with
     | "PROG" :: _ :: tg :: sn :: _ ->
-        incr progs; target := tg; snap := parse_kvs sn; st := xbuf_empty; Hashtbl.reset cps
+        incr progs; target := tg; snap := parse_kvs sn; st := xbuf_empty; pst := pbuf_empty []; Hashtbl.reset cps
     | "O" :: pid :: idx :: kind :: rest ->
         let rec split acc l = match l with "=>" :: r -> (List.rev acc, r) | x :: r -> split (x :: acc) r | [] -> (List.rev acc, []) in
         let (args, res) = split [] rest in
@@ -34,7 +35,27 @@ let () =
         let a i = List.nth args i in
         let apply o = prev_wseq := !st.x_wseq; let (s', r) = xstep !st o in st := s'; status r in
         let b () = !st.x_b in
+        let papply o = let (s', r) = pstep !pst o in pst := s'; status r in
         let m = (try
+          if !target = "pipe" then begin
+            match kind with
+            | "set" -> papply (PSet (bytes_of_hex (a 0), bytes_of_hex (a 1)))
+            | "del" -> papply (PDel (bytes_of_hex (a 0)))
+            | "get" -> (match pu_get !snap !pst (bytes_of_hex (a 0)) with Some v -> "v " ^ hex_of_bytes v | None -> "nf")
+            | "bget" ->
+                let keys = List.map bytes_of_hex (String.split_on_char ',' (a 0)) in
+                let (handed, r) = pu_batch_get !snap !pst keys in
+                ignore (papply (PBatchGet keys));
+                let hs = if handed = [] then "none" else String.concat "," (List.map hex_of_bytes handed) in
+                "handed=" ^ hs ^ "|res=" ^ kvs_string r
+            | "staging" -> let h = int_of_nat (staging_handle !pst.p_mem) in ignore (papply PStaging); "h " ^ string_of_int h
+            | "release" -> papply (PRelease (nat_of_int (int_of_string (a 0))))
+            | "cleanup" -> papply (PCleanup (nat_of_int (int_of_string (a 0))))
+            | "flush" -> papply PFlush
+            | "fdone" -> papply PFlushDone
+            | "fwait" -> papply PFlushWait
+            | _ -> "unknown-op"
+          end else
           match kind with
           | "set" -> apply (XWrite (bytes_of_hex (a 0), bytes_of_hex (a 1), parse_fops (a 2)))
           | "del" -> apply (XDelete (bytes_of_hex (a 0), parse_fops (a 1)))
